@@ -75,6 +75,11 @@ func genRender(tier string, rng *RNG, emit func(Case)) {
 		d := "# h {" + nm[i] + "=v " + nm[(i*7+3)%len(nm)] + "=\"w\"}\n"
 		emit(Case{Op: "doc", Args: []string{Cfg{Exts: "tskldfy", Attr: true, XHTML: i%2 == 0}.Name(), hx([]byte(d))}})
 	}
+	// names the real global attribute filter accepts although they are not allowed (directed search; none expected)
+	for i, n := range DirectedAttrNames() {
+		d := "# h {" + n + "=v}\n\nx\n===\n{" + n + "=\"w\"}\n"
+		emit(Case{Op: "doc", Args: []string{Cfg{Exts: "tskldfy", Attr: true, XHTML: i%2 == 0}.Name(), hx([]byte(d))}})
+	}
 	for i := 0; i < ntrees; i++ {
 		c := randCfg(rng)
 		c.Exts = []string{"tskdf", "tskdf", "", "t", "f", "tskdf1", "tskdf2e"}[rng.Intn(7)]
